@@ -22,7 +22,7 @@ int main() {
     for (int b = 0; b < 4; b++) {
         int mx = budgets[b];
         for (int n = 0; n <= mx + 3; n++) {
-            for (int thr = 0; thr <= n; thr++) {
+            for (int thr = 0; thr <= n; thr++) for (int via = 0; via < 2; via++) {   // via 1: the budget is set through Reset after an Init with another one
                 if (mx == 500 && thr > 3 && thr < n - 1) continue;   // 500-step budget: throw positions {1,2,3,n-1,n}
                 verif_odeint_script().nsteps = n;
                 verif_odeint_script().throw_at = thr;
@@ -30,7 +30,8 @@ int main() {
                 Naunet naunet; NaunetData data; data.nH = 1.0; data.Tgas = 10.0;
                 double y[NEQUATIONS]; const double y0 = 0.25, dt = 3.0;
                 for (int i = 0; i < NEQUATIONS; i++) y[i] = y0;
-                naunet.Init(1, 1e-20, 1e-5, mx);
+                if (via == 0) naunet.Init(1, 1e-20, 1e-5, mx);
+                else { naunet.Init(1, 1e-20, 1e-5, mx == 500 ? 3 : 500); naunet.Reset(1, 1e-20, 1e-5, mx); }
                 int ret = naunet.Solve(y, dt, &data);
                 naunet.Finalize();
                 free(verif_log_buf); verif_log_buf = NULL; verif_log_len = 0;
